@@ -23,3 +23,4 @@ open GrVerif.Props.C01
 #print axioms glyph_attributes_total
 #print axioms sparse_total
 #print axioms face_loading_total
+#print axioms glyph_graphics_total
